@@ -35,7 +35,7 @@ Vectors ==
     [] Family = "table" -> Tag("table", FieldTable) \cup {[fam |-> "meta", c |-> Meta]}
     [] Family = "all"   -> Tag("parse", ParseShapes) \cup Tag("view", ViewShapes) \cup Tag("field", FieldVectors)
                            \cup Tag("alloc", AllocCases) \cup Tag("table", FieldTable) \cup {[fam |-> "meta", c |-> Meta]}
-                           \cup Tag("cfgparse", ConfigCases)
+                           \cup Tag("cfgparse", ConfigCases) \cup Tag("allocset", AllocSets)
 
 Init == v \in Vectors
 Next == UNCHANGED v
